@@ -1,3 +1,4 @@
+import WmModel.Props.C05Reg
 import WmModel.Props.C05
 #print axioms Wm.GcSub.one_unsettled_inv
 #print axioms Wm.GcSub.unsettled_is_owned
@@ -5,3 +6,8 @@ import WmModel.Props.C05
 #print axioms Wm.GcSub.never_panics
 #print axioms Wm.GcSub.close_flags_consistent
 #print axioms Wm.GcSub.holder_can_leave_when_closing
+#print axioms Wm.GcReg.blocking_publish_waits
+#print axioms Wm.GcReg.blocking_send_then_wait
+#print axioms Wm.GcReg.blocking_deadlock_witness
+#print axioms Wm.GcReg.blocking_without_pending_writer_returns
+#print axioms Wm.GcReg.writer_unique
